@@ -100,6 +100,9 @@ class Interp:
             return self.query(rhs[1], Scope(owner.ctx, None, owner, self)), False
         if t == "somequery":
             return [r for r in self.query(rhs[1], Scope(owner.ctx, None, owner, self)) if isinstance(r, R)], False
+        if t == "results":
+            # a parameter of a parameterised rule: the values the argument selected at the call site
+            return list(rhs[1]), False
         raise Unspec("function variable")
 
     def query(self, q, scope):
@@ -463,7 +466,42 @@ class Interp:
             return self.cnf(a["body"], scope.child(scope.ctx, a.get("lets")), "when")
         if t == "type":
             return self.typeblock(a, scope)
+        if t == "call":
+            return self.call(a, scope)
         raise Unspec("clause kind " + t)
+
+    def call(self, a, scope):
+        """documented reading of `name(args)`: the named rule's body evaluated with each parameter standing for what its
+        argument selects at the call site; the call has the body's status, `not` inverts like for a named rule"""
+        defs = [r for r in self.f["rules"] if r["name"] == a["name"] and r.get("params")]
+        if not defs:
+            raise Err("unknown parameterised rule " + a["name"])
+        if len(defs) > 1:
+            raise Unspec("several definitions of one parameterised rule")
+        d = defs[0]
+        if len(d["params"]) != len(a["args"]):
+            raise Err("arity mismatch")
+        if a["name"] in self.in_progress:
+            raise Unspec("cyclic rules")
+        lets = []
+        for pname, arg in zip(d["params"], a["args"]):
+            if arg[0] == "lit":
+                lets.append([pname, ("results", [R(arg[1])])])
+            elif arg[0] == "query":
+                lets.append([pname, ("results", self.query(arg[1], scope))])
+            else:
+                raise Unspec("argument kind " + arg[0])
+        if d.get("when"):
+            raise Unspec("parameterised rule with a when guard")
+        self.in_progress.add(a["name"])
+        try:
+            body_scope = scope.child(scope.ctx, lets)
+            st = self.cnf(d["body"], body_scope.child(scope.ctx, d.get("lets")), "rule")
+        finally:
+            self.in_progress.discard(a["name"])
+        if a.get("neg"):
+            return "FAIL" if st == "PASS" else "PASS"
+        return st
 
     def cnf(self, cnf, scope, where):
         sts = []
